@@ -167,7 +167,53 @@ Theorem readonly_setops_not_refused_old : forall f bits o,
   core_union false f bits o <> None /\ core_intersect false f bits o <> None /\ core_invert false f bits <> None.
 Proof. exact readonly_setops_not_refused. Qed.
 
+(* ---------------------------------------------------------------------------------------------------------------- *)
+(* 4. deserialize / wrap computed the capacity as num_longs << 6 on uint32_t                                          *)
+(*    (fixes/15_bloom_deserialize_capacity_64bit.patch)                                                              *)
+(* ---------------------------------------------------------------------------------------------------------------- *)
+Local Open Scope N_scope.
+
+(* an (empty) filter of 2^32 + 64 bits -- a size the constructor accepts -- is restored with capacity 64 by the old code;
+   the repaired code restores the capacity (C15_deserialize_serialize_empty) *)
+Definition big_f : filt := mkF 123 3 (2 ^ 32 + 64) false false 0 None 0.
+
+Theorem deserialize_capacity_refuted :
+  exists f, cfg_ok f /\ f_nh f <> 0 /\ f_cap f <= MAX_BITS /\ is_empty f = true /\
+    new_owned (f_cap f) (f_nh f) (f_seed f) = Some f /\
+    (forall stream, option_map f_cap (deser_filt false (serialize f 0) stream) = Some 64) /\
+    option_map f_cap (wrap_filt false (serialize f 0) 0%Z false) = Some 64 /\
+    (forall stream, option_map f_cap (deser_filt true (serialize f 0) stream) = Some (f_cap f)).
+Proof.
+  exists big_f. split; [|split; [|split; [|split; [|split; [|split; [|split]]]]]].
+  - unfold cfg_ok. cbn. repeat split; try reflexivity; discriminate.
+  - discriminate.
+  - unfold MAX_BITS. cbn. discriminate.
+  - reflexivity.
+  - vm_compute. reflexivity.
+  - intros [|]; vm_compute; reflexivity.
+  - vm_compute. reflexivity.
+  - intros [|]; vm_compute; reflexivity.
+Qed.
+
+(* a filter of exactly 2^32 bits could not be restored at all: the truncated capacity is 0 and the constructor refuses it *)
+Theorem deserialize_capacity_refused_old :
+  deser_filt false (serialize (mkF 123 3 (2 ^ 32) false false 0 None 0) 0) false = None /\
+  option_map f_cap (deser_filt true (serialize (mkF 123 3 (2 ^ 32) false false 0 None 0) 0) false) = Some (2 ^ 32).
+Proof. vm_compute. split; reflexivity. Qed.
+
+(* for a non-empty filter the truncated capacity changes every index: the restored filter takes indices modulo 64 *)
+Theorem deserialize_capacity_indices_old : forall c nh seed nbs nbytes d,
+  parse false d false false false = PFull c nh seed nbs nbytes -> rd d 16 4 = 2 ^ 26 + 1 -> c = 64.
+Proof.
+  intros c nh seed nbs nbytes d Hp Hn. unfold parse in Hp. rewrite Hn in Hp.
+  repeat match type of Hp with (if ?b then _ else _) = _ => destruct b; try discriminate Hp end.
+  injection Hp as <- _ _ _ _. vm_compute. reflexivity.
+Qed.
+
 Print Assumptions wrap_after_update_refuted.
+Print Assumptions deserialize_capacity_refuted.
+Print Assumptions deserialize_capacity_refused_old.
+Print Assumptions deserialize_capacity_indices_old.
 Print Assumptions memory_image_consistent_refuted.
 Print Assumptions qau_on_dirty_refuted.
 Print Assumptions qau_after_dirty_deserialize_refuted.
